@@ -281,9 +281,13 @@ class CallListerVisitor(ast.NodeVisitor):
             self.namespace.add_nonlocal(name)
 
     def visit_Name(self, node):
-        immutable = self.namespace.is_immutable_value(node.id)
-        if not (immutable and isinstance(node.ctx, ast.Load)):
-            self.namespace[node.id] = Unknown(node)
+        if isinstance(node.ctx, ast.Load):
+            # reading a name does not change what it denotes; only the
+            # **kwargs mapping can be altered by whoever gets hold of it
+            current = self.namespace.get(node.id)
+            if current is None or current is not self.varkwargs:
+                return
+        self.namespace[node.id] = Unknown(node)
 
     def visit_Attribute(self, node):
         pass
